@@ -45,6 +45,11 @@ def check_case(case):
         s = build(spec)
         path = os.path.join(workdir("c05"), "m.json")
         s.save(path)
+        if case.get("oldver"):   # the same file labelled as written by an older release (which knows the PMux): it must load into the same system
+            import json
+            doc_ = json.load(open(path))
+            doc_["system"]["version"] = case["oldver"]
+            json.dump(doc_, open(path, "w"))
         s2, _ = quiet_call(System.from_file, path)
         try:
             df, _ = quiet_call(s2.solve)
@@ -190,6 +195,11 @@ def gen_edits(tier, pal):
             for order in itertools.permutations(range(k)):
                 if list(order) != list(range(k)):
                     yield dict(inputs=[list(x) for x in inputs], pal=pal, rs_list=True, rails=False, by_rail=False, pol=1, order=list(order), reload=True)
+                    if k == 2:
+                        for ov in ("1.8.0", "1.8.1", "1.9.0"):
+                            yield dict(inputs=[list(x) for x in inputs], pal=pal, rs_list=True, rails=False, by_rail=False, pol=1, order=list(order), reload=True, oldver=ov)
+            if k == 2:   # identity order too
+                yield dict(inputs=[list(x) for x in inputs], pal=pal, rs_list=True, rails=False, by_rail=False, pol=1, order=None, reload=True, oldver="1.8.0")
 
 
 def replay(doc):
